@@ -1165,6 +1165,12 @@ func (in *Interp) binop(fr *frame, x *ssa.BinOp) Value {
 			}
 			return C.Bool(n)
 		}
+		if _, isS := a.(*Str); isS && x.Op == token.ADD {
+			return &Opaque{Why: "string expr"}
+		}
+		if _, isS := b.(*Str); isS && x.Op == token.ADD {
+			return &Opaque{Why: "string expr"}
+		}
 		if _, isO := a.(*Opaque); isO {
 			return &Opaque{Why: "expr"}
 		}
